@@ -58,6 +58,32 @@ def one(xs, what):
     return xs[0]
 
 
+class Anchors(dict):
+    """anchors resolved on first use; a failed resolution is raised (as Inconclusive) where the anchor is needed"""
+
+    def lazy(self, key, fn):
+        self.setdefault("__lazy__", {})[key] = fn
+
+    def __missing__(self, key):
+        fn = dict.get(self, "__lazy__", {}).get(key)
+        if fn is None:
+            raise KeyError(key)
+        v = fn()
+        self[key] = v
+        return v
+
+
+class ShortNames(dict):
+    def __init__(self, a, f):
+        super().__init__()
+        self.a, self.f = a, f
+
+    def __missing__(self, key):
+        v = short_callee(self.a[key])
+        self[key] = v
+        return v
+
+
 def resolve(f, table=None):
     key = getattr(f, "path", id(f))
     if key in _memo:
@@ -98,35 +124,47 @@ def resolve(f, table=None):
         nm = one(names, "context method for %s nodes" % kind)
         role[r] = one([d for d, b in f.bodies.items() if b["name"] == nm and self_of(f, d).split("<")[0] == ctx_base and b["kind"] == "AssocFn"],
                       "context method %s" % nm)
-    a = {"evaluator": ev, "ctx_type": ctx_ty, "ctx_short": ctx_base.split("::")[-1],
-         "ctx_reference": role["reference"], "ctx_symbol": role["symbol"], "ctx_call": role["call_function"],
-         "role_names": {f.bodies[v]["name"]: k for k, v in role.items()}}
-    # the route of a user-function call from the context down to the function table: the UserFunctions method that
-    # takes the cache by `&mut`, reached directly or through one RuleSet method
+    a = Anchors({"evaluator": ev, "ctx_type": ctx_ty, "ctx_short": ctx_base.split("::")[-1],
+                 "ctx_reference": role["reference"], "ctx_symbol": role["symbol"], "ctx_call": role["call_function"],
+                 "role_names": {f.bodies[v]["name"]: k for k, v in role.items()}})
+
     def takes_cache(q):
         b_ = f.bodies[q]
         return self_of(f, q) == "function::UserFunctions" and any(f.ty_s(b_["locals"][i]["ty"]).startswith("&mut ") for i in range(2, b_["arg_count"] + 1))
-    direct = [q for q in tree_callees(f, a["ctx_call"]) if takes_cache(q)]
-    via = [(r, q) for r in tree_callees(f, a["ctx_call"]) if self_of(f, r) == "ruleset::RuleSet" for q in tree_callees(f, r) if takes_cache(q)]
-    if len(direct) == 1 and not via:
-        a["rs_call"] = None
-        a["uf_call"] = direct[0]
-    else:
-        a["rs_call"] = one([r for r, q in via], "RuleSet method called by the context's function call")
-        a["uf_call"] = one([q for r, q in via], "UserFunctions method called by RuleSet")
-    a["uf_get"] = one([q for q in tree_callees(f, a["uf_call"]) if self_of(f, q) == "function::UserFunctions" and q != a["uf_call"]], "function lookup used by UserFunctions::call")
-    a["rs_symbol"] = one([q for q in tree_callees(f, a["ctx_symbol"]) if self_of(f, q) == "ruleset::RuleSet"], "RuleSet method called by the context's symbol lookup")
-    a["symbols_get"] = one([q for q in tree_callees(f, a["rs_symbol"]) if self_of(f, q) == "symbol::Symbols"], "Symbols method called by RuleSet's symbol lookup")
-    news = []
-    for d, b in f.bodies.items():
-        if b["kind"] == "AssocFn" and self_of(f, d).split("<")[0] == ctx_base and f.ty_s(b["locals"][0]["ty"]).split("<")[0] == ctx_base:
-            if not b["arg_count"] or ctx_base not in f.ty_s(b["locals"][1]["ty"]):
-                news.append(d)
-    a["ctx_new"] = one(news, "context constructor")
-    expr_eval = one(evalsum.find_by_name(f, "evaluate", evalsum.EXPR), "Expr::evaluate")
-    a["expr_eval"] = expr_eval
-    a["eval_rule"] = one([d for d, b in f.bodies.items() if b["kind"] == "AssocFn" and self_of(f, d) == evalsum.EXPR and d != expr_eval
-                          and a["ctx_new"] in tree_callees(f, d)], "per-rule evaluation entry (Expr method building a context)")
-    a["short"] = {k: short_callee(v) for k, v in a.items() if isinstance(v, str) and v in f.bodies}
+
+    def route():
+        # the route of a user-function call from the context down to the function table: the UserFunctions method
+        # that takes the cache by `&mut`, reached directly or through one RuleSet method
+        direct = [q for q in tree_callees(f, a["ctx_call"]) if takes_cache(q)]
+        via = [(r, q) for r in tree_callees(f, a["ctx_call"]) if self_of(f, r) == "ruleset::RuleSet" for q in tree_callees(f, r) if takes_cache(q)]
+        if len(direct) == 1 and not via:
+            return None, direct[0]
+        return (one([r for r, q in via], "RuleSet method called by the context's function call"),
+                one([q for r, q in via], "UserFunctions method called by RuleSet"))
+
+    def ctx_constructors():
+        news = []
+        for d, b in f.bodies.items():
+            if b["kind"] == "AssocFn" and self_of(f, d).split("<")[0] == ctx_base and ctx_base in f.ty_s(b["locals"][0]["ty"]):
+                if not b["arg_count"] or ctx_base not in f.ty_s(b["locals"][1]["ty"]):
+                    news.append(d)
+        return sorted(news)
+
+    # every further anchor is resolved on its own: a check is inconclusive only about what it needs
+    a.lazy("rs_call", lambda: route()[0])
+    a.lazy("uf_call", lambda: route()[1])
+    a.lazy("uf_get", lambda: one([q for q in tree_callees(f, a["uf_call"]) if self_of(f, q) == "function::UserFunctions" and q != a["uf_call"]],
+                                 "function lookup used by UserFunctions::call"))
+    a.lazy("rs_symbol", lambda: one([q for q in tree_callees(f, a["ctx_symbol"]) if self_of(f, q) == "ruleset::RuleSet"],
+                                    "RuleSet method called by the context's symbol lookup"))
+    a.lazy("symbols_get", lambda: one([q for q in tree_callees(f, a["rs_symbol"]) if self_of(f, q) == "symbol::Symbols"],
+                                      "Symbols method called by RuleSet's symbol lookup"))
+    a.lazy("ctx_constructors", ctx_constructors)
+    a.lazy("ctx_new", lambda: one(a["ctx_constructors"], "context constructor"))
+    a.lazy("expr_eval", lambda: one(evalsum.find_by_name(f, "evaluate", evalsum.EXPR), "Expr::evaluate"))
+    a.lazy("eval_rule", lambda: one([d for d, b in f.bodies.items() if b["kind"] == "AssocFn" and self_of(f, d) == evalsum.EXPR and d != a["expr_eval"]
+                                     and any(c_ in tree_callees(f, d) for c_ in a["ctx_constructors"])],
+                                    "per-rule evaluation entry (Expr method building a context)"))
+    a.lazy("short", lambda: ShortNames(a, f))
     _memo[key] = a
     return a
